@@ -103,6 +103,9 @@ def run(ck, funs, dcases, rng):
     from gemseo.utils.derivatives.derivatives_approx import DisciplineJacApprox
 
     counts = {"approx": 0, "linearize": 0, "check": 0}
+    par_runs = {"procs": 0, "threads": 0}
+    n_lin = 0
+    par_stride = 16 if ck.thorough else 6
     for k, (I, out, pts) in enumerate(dcases):
         op, meth = I["op"], I["meth"]
         fun = funs[I["fid"]]
@@ -138,16 +141,33 @@ def run(ck, funs, dcases, rng):
                 if logged != wantp:
                     ck.violation("EvalPoints", sig, dict(case, impl=sorted(logged), spec=sorted(wantp)))
             elif op == "linearize":
-                d = make_discipline(fun, il, ol, I["X"])
-                d.set_jacobian_approximation(MODE[meth], jax_approx_step=step)
-                everything = len(ins) == len(il) and len(outs) == len(ol)
-                if everything and k % 2 == 0:
-                    got = d.linearize(compute_all_jacobians=True)
-                else:
-                    d.add_differentiated_inputs(ins)
-                    d.add_differentiated_outputs(outs)
-                    got = d.linearize()
-                compare_blocks(ck, sig, case, meth, got, want, True)
+                n_lin += 1
+                # serial for every instance; process / thread back-ends for a fixed stride of them
+                pars = ["serial"] + (["procs"] if n_lin % par_stride == 0 else []) \
+                    + (["threads"] if n_lin % par_stride == 1 else [])
+                for par in pars:
+                    d = make_discipline(fun, il, ol, I["X"])
+                    psig = sig if par == "serial" else dict(sig, par=par, several_tasks=True)
+                    try:
+                        d.set_jacobian_approximation(
+                            MODE[meth], jax_approx_step=step, jac_approx_n_processes=1 if par == "serial" else 2,
+                            jac_approx_use_threading=par == "threads")
+                        everything = len(ins) == len(il) and len(outs) == len(ol)
+                        if everything and k % 2 == 0:
+                            got = d.linearize(compute_all_jacobians=True)
+                        else:
+                            d.add_differentiated_inputs(ins)
+                            d.add_differentiated_outputs(outs)
+                            got = d.linearize()
+                    except Exception as ex:  # noqa: BLE001
+                        ck.violation("Runs", dict(psig, exception=type(ex).__name__, msg=exc_class(ex)),
+                                     dict(case, error=repr(ex)))
+                        break
+                    if par != "serial":
+                        ck.traces += 1
+                        par_runs[par] += 1
+                    if not compare_blocks(ck, psig, case, meth, got, want, True):
+                        break
             else:
                 exact = blocks(I, out["exact"])
                 indices = {}
@@ -187,3 +207,4 @@ def run(ck, funs, dcases, rng):
             ck.violation("Runs", dict(sig, exception=type(ex).__name__, msg=exc_class(ex)),
                          dict(case, error=repr(ex), traceback=traceback.format_exc(limit=8)))
     ck.extra["disc_instances"] = counts
+    ck.extra["disc_parallel_linearize_runs"] = par_runs
